@@ -346,6 +346,16 @@ Definition oconcat {A} (vs : list (option (list A))) : option (list A) := option
 Definition ftext (f : option fobs) : option raw :=
   match f with Some (FText r) => Some r | _ => None end.
 
+(** The file a program gets as stdin (as_stdin.of_sequence(parts, mem_buff_size=0)): nothing (DEVNULL), the
+    [as_file] of the only part, or a new concat of the parts consumed as a file (written afresh each time). *)
+Definition stdin_with (sf : src -> option fobs * src) (sw : src -> option (list wev) * src) (ins : list src)
+  : option raw * list src :=
+  match ins with
+  | [] => (Some [], ins)
+  | [p] => let (f, p') := sf p in (ftext f, [p'])
+  | _ => let (ws, ins') := map_st sw ins in (option_map file_of_events (oconcat ws), ins')
+  end.
+
 (** Unfrozen [write_to] of a program source without cached file, given the bytes on stdin ([None] = preparing
     stdin raised): ContentsViaWriteTo lets the child write to the descriptor; ContentsViaFile creates (and
     caches) its file and copies its lines. *)
@@ -422,12 +432,7 @@ Fixpoint s_lines (b : N) (x : src) {struct x} : option (list text) * src :=
                match c_path st with
                | Some r => let (v, st') := via_frozen b st (Some [WLines (file_lines r)]) fz_lines in (v, SProg k g st' ins)
                | None =>
-                   let (o, ins') := match ins with
-               | [] => (Some [], ins)                                   (* no stdin: DEVNULL *)
-               | [p] => let (f, p') := s_file b p in (ftext f, [p'])    (* one part: its as_file *)
-               | _ => let (ws, ins') := map_st (s_write b) ins in       (* concat(parts, 0).as_file: written afresh *)
-                      (option_map file_of_events (oconcat ws), ins')
-               end in
+                   let (o, ins') := stdin_with (s_file b) (s_write b) ins in
                    let (w, st1) := prog_write_of k g st o in
                    let (v, st') := via_frozen b st1 w fz_lines in (v, SProg k g st' ins')
                end
@@ -436,12 +441,7 @@ Fixpoint s_lines (b : N) (x : src) {struct x} : option (list text) * src :=
            match c_path st with
            | Some r => (Some (file_lines r), x)
            | None =>
-               let (o, ins') := match ins with
-               | [] => (Some [], ins)                                   (* no stdin: DEVNULL *)
-               | [p] => let (f, p') := s_file b p in (ftext f, [p'])    (* one part: its as_file *)
-               | _ => let (ws, ins') := map_st (s_write b) ins in       (* concat(parts, 0).as_file: written afresh *)
-                      (option_map file_of_events (oconcat ws), ins')
-               end in
+               let (o, ins') := stdin_with (s_file b) (s_write b) ins in
                match option_map g o with                         (* the program writes its output to a new file *)
                | Some r => (Some (file_lines r), SProg k g (cs_set_path st r) ins')
                | None => (None, SProg k g st ins')
@@ -504,12 +504,7 @@ with s_file (b : N) (x : src) {struct x} : option fobs * src :=
                match c_path st with
                | Some r => let (v, st') := via_frozen b st (Some [WLines (file_lines r)]) fz_file in (v, SProg k g st' ins)
                | None =>
-                   let (o, ins') := match ins with
-               | [] => (Some [], ins)                                   (* no stdin: DEVNULL *)
-               | [p] => let (f, p') := s_file b p in (ftext f, [p'])    (* one part: its as_file *)
-               | _ => let (ws, ins') := map_st (s_write b) ins in       (* concat(parts, 0).as_file: written afresh *)
-                      (option_map file_of_events (oconcat ws), ins')
-               end in
+                   let (o, ins') := stdin_with (s_file b) (s_write b) ins in
                    let (w, st1) := prog_write_of k g st o in
                    let (v, st') := via_frozen b st1 w fz_file in (v, SProg k g st' ins')
                end
@@ -517,12 +512,7 @@ with s_file (b : N) (x : src) {struct x} : option fobs * src :=
       else match c_path st with
            | Some r => (Some (FText r), x)
            | None =>
-               let (o, ins') := match ins with
-               | [] => (Some [], ins)                                   (* no stdin: DEVNULL *)
-               | [p] => let (f, p') := s_file b p in (ftext f, [p'])    (* one part: its as_file *)
-               | _ => let (ws, ins') := map_st (s_write b) ins in       (* concat(parts, 0).as_file: written afresh *)
-                      (option_map file_of_events (oconcat ws), ins')
-               end in
+               let (o, ins') := stdin_with (s_file b) (s_write b) ins in
                match option_map g o with                         (* the program writes its output to a new file *)
                | Some r => (Some (FText r), SProg k g (cs_set_path st r) ins')
                | None => (None, SProg k g st ins')
@@ -610,12 +600,7 @@ with s_write (b : N) (x : src) {struct x} : option (list wev) * src :=
                match c_path st with
                | Some r => let (v, st') := via_frozen b st (Some [WLines (file_lines r)]) fz_write in (v, SProg k g st' ins)
                | None =>
-                   let (o, ins') := match ins with
-               | [] => (Some [], ins)                                   (* no stdin: DEVNULL *)
-               | [p] => let (f, p') := s_file b p in (ftext f, [p'])    (* one part: its as_file *)
-               | _ => let (ws, ins') := map_st (s_write b) ins in       (* concat(parts, 0).as_file: written afresh *)
-                      (option_map file_of_events (oconcat ws), ins')
-               end in
+                   let (o, ins') := stdin_with (s_file b) (s_write b) ins in
                    let (w, st1) := prog_write_of k g st o in
                    let (v, st') := via_frozen b st1 w fz_write in (v, SProg k g st' ins')
                end
@@ -623,12 +608,7 @@ with s_write (b : N) (x : src) {struct x} : option (list wev) * src :=
       else match c_path st with
            | Some r => (Some [WLines (file_lines r)], x)         (* the cached file is copied *)
            | None =>
-               let (o, ins') := match ins with
-               | [] => (Some [], ins)                                   (* no stdin: DEVNULL *)
-               | [p] => let (f, p') := s_file b p in (ftext f, [p'])    (* one part: its as_file *)
-               | _ => let (ws, ins') := map_st (s_write b) ins in       (* concat(parts, 0).as_file: written afresh *)
-                      (option_map file_of_events (oconcat ws), ins')
-               end in
+               let (o, ins') := stdin_with (s_file b) (s_write b) ins in
                let (w, st1) := prog_write_of k g st o in (w, SProg k g st1 ins')
            end
   | SLines f dep path isfz u =>
@@ -687,12 +667,7 @@ Definition s_str (b : N) (x : src) : option text * src :=
                match c_path st with
                | Some r => let (v, st') := via_frozen b st (Some [WLines (file_lines r)]) fz_str in (v, SProg k g st' ins)
                | None =>
-                   let (o, ins') := match ins with
-               | [] => (Some [], ins)                                   (* no stdin: DEVNULL *)
-               | [p] => let (f, p') := s_file b p in (ftext f, [p'])    (* one part: its as_file *)
-               | _ => let (ws, ins') := map_st (s_write b) ins in       (* concat(parts, 0).as_file: written afresh *)
-                      (option_map file_of_events (oconcat ws), ins')
-               end in
+                   let (o, ins') := stdin_with (s_file b) (s_write b) ins in
                    let (w, st1) := prog_write_of k g st o in
                    let (v, st') := via_frozen b st1 w fz_str in (v, SProg k g st' ins')
                end
@@ -748,12 +723,7 @@ Fixpoint s_dep (b : N) (x : src) {struct x} : option bool * src :=
                match c_path st with
                | Some r => let (v, st') := via_frozen b st (Some [WLines (file_lines r)]) fz_dep in (v, SProg k g st' ins)
                | None =>
-                   let (o, ins') := match ins with
-               | [] => (Some [], ins)                                   (* no stdin: DEVNULL *)
-               | [p] => let (f, p') := s_file b p in (ftext f, [p'])    (* one part: its as_file *)
-               | _ => let (ws, ins') := map_st (s_write b) ins in       (* concat(parts, 0).as_file: written afresh *)
-                      (option_map file_of_events (oconcat ws), ins')
-               end in
+                   let (o, ins') := stdin_with (s_file b) (s_write b) ins in
                    let (w, st1) := prog_write_of k g st o in
                    let (v, st') := via_frozen b st1 w fz_dep in (v, SProg k g st' ins')
                end
